@@ -1,6 +1,7 @@
 import SFV.Driver.Json
 import SFV.Model.FockTensor
 import SFV.Model.PhaseSpace
+import SFV.Model.Bosonic
 /-! Driver for K3 (Gaussian simulator model over `Rat`) and K4 (Fock tensor index algebra over
 Gaussian integers).  Ops: `fock.apply`, `gauss.run`. -/
 namespace SFV.Drv.Sim
@@ -215,10 +216,41 @@ def gaussRun (j : Json) : R Json := do
     else []
   pure <| Json.mkObj (base ++ specAgree)
 
+/-! ### bosonic index algebra -/
+
+def asRatMat (j : Json) : R (Array (Array Rat)) := do
+  let rows ← j.getArr?
+  rows.mapM fun r => do
+    let cs ← r.getArr?
+    cs.mapM asRat
+
+def matFn (a : Array (Array Rat)) : Nat → Nat → Rat := fun i k => (a.getD i #[]).getD k 0
+
+def bosApply (j : Json) : R Json := do
+  let n ← getNat j "n"
+  let modes ← getNatList j "modes"
+  let X ← asRatMat (← j.getObjVal? "X")
+  let Y ← asRatMat (← j.getObjVal? "Y")
+  let V ← asRatMat (← j.getObjVal? "V")
+  let mu ← (← getArr j "mu").mapM asRat
+  let mua := mu.toArray
+  let X2 := Bos.expand n modes (matFn X)
+  let Y2 := Bos.expandY n modes (matFn Y)
+  let rng := List.range (2 * n)
+  let mu' := Bos.updateMeans n X2 (fun i => mua.getD i 0)
+  let V' := Bos.updateCovs n X2 Y2 (matFn V)
+  pure <| Json.mkObj [
+    ("fromXp", natList (rng.map (Bos.fromXp n))), ("toXp", natList (rng.map (Bos.toXp n))),
+    ("X2", jarr (rng.map fun r => jarr (rng.map fun c => jrat (X2 r c)))),
+    ("Y2", jarr (rng.map fun r => jarr (rng.map fun c => jrat (Y2 r c)))),
+    ("mu", jarr (rng.map fun r => jrat (mu' r))),
+    ("V", jarr (rng.map fun r => jarr (rng.map fun c => jrat (V' r c))))]
+
 def handler (op : String) (j : Json) : Option (R Json) :=
   match op with
   | "fock.apply" => some (fockApply j)
   | "gauss.run" => some (gaussRun j)
+  | "bos.apply" => some (bosApply j)
   | _ => none
 
 end SFV.Drv.Sim
